@@ -100,7 +100,7 @@ func nonceGate(m *RunModel, gates []core.Gate) (core.Status, string, token.Pos) 
 		mentionsGet := func(v ssa.Value) bool {
 			return core.DependsOn(v, func(x ssa.Value) bool {
 				call, ok := x.(*ssa.Call)
-				return ok && strings.HasSuffix(core.CalleeName(&call.Call), ".GetNonce")
+				return ok && strings.HasSuffix(core.CalleeName(core.NormCall(&call.Call)), ".GetNonce")
 			})
 		}
 		if !((mentionsNonce(bin.X) && mentionsGet(bin.Y)) || (mentionsNonce(bin.Y) && mentionsGet(bin.X))) {
@@ -128,7 +128,7 @@ func nonceGate(m *RunModel, gates []core.Gate) (core.Status, string, token.Pos) 
 			return core.Undecided, "left side of the nonce gate is not tx.Nonce ± const: " + core.Path(baseA), g.If.Pos()
 		}
 		call, ok := core.Unwrap(baseB).(*ssa.Call)
-		if !ok || !strings.HasSuffix(core.CalleeName(&call.Call), ".GetNonce") {
+		if !ok || !strings.HasSuffix(core.CalleeName(core.NormCall(&call.Call)), ".GetNonce") {
 			return core.Undecided, "right side of the nonce gate is not GetNonce(..) ± const", g.If.Pos()
 		}
 		gs := &core.Site{Instr: call, Common: &call.Call}
@@ -218,8 +218,8 @@ func checkNonceRegister(c *core.Ctx, rule string) {
 			if recv == nil {
 				continue
 			}
-			rn := core.CalleeName(&recv.Call)
-			if (rn == "(*coreV2/state/accounts.Accounts).getOrNew" || rn == "(*coreV2/state/accounts.Accounts).get") && core.Path(recv.Call.Args[1]) == "address" && core.Path(s.Arg(0)) == "nonce" {
+			rn := core.CalleeName(core.NormCall(&recv.Call))
+			if (rn == "(*coreV2/state/accounts.Accounts).getOrNew" || rn == "(*coreV2/state/accounts.Accounts).get") && core.Path(core.NormCall(&recv.Call).Args[1]) == "address" && core.Path(s.Arg(0)) == "nonce" {
 				ok = true
 			}
 		}
@@ -240,7 +240,7 @@ func checkNonceRegister(c *core.Ctx, rule string) {
 				continue
 			}
 			call, isCall := core.Unwrap(fa.X).(*ssa.Call)
-			if !isCall || !strings.Contains(core.CalleeName(&call.Call), "accounts.Accounts).get") || core.Path(call.Call.Args[1]) != "address" {
+			if !isCall || !strings.Contains(core.CalleeName(core.NormCall(&call.Call)), "accounts.Accounts).get") || core.Path(core.NormCall(&call.Call).Args[1]) != "address" {
 				ok = false
 			}
 		}
@@ -306,7 +306,7 @@ func checkExportKeepsNonce(c *core.Ctx, rule string) {
 						built = b
 					}
 				case *ssa.Call:
-					if bi, ok := x.Call.Value.(*ssa.Builtin); ok && bi.Name() == "append" && strings.HasSuffix(core.Path(x.Call.Args[0]), ".Accounts") {
+					if bi, ok := x.Call.Value.(*ssa.Builtin); ok && bi.Name() == "append" && strings.HasSuffix(core.Path(core.NormCall(&x.Call).Args[0]), ".Accounts") {
 						appended = b
 					}
 				}
